@@ -10,7 +10,7 @@
    string and integer keys, pointwise for float keys on the exact-decimal domain of render_float.
    Argument form: *T (the other forms are C12's). *)
 From Coq Require Import List Bool String Ascii ZArith Arith Sorting.Permutation Floats.SpecFloat.
-From Verif Require Import Util Ints Strconv Floats Node GoSrc Value Outcome Nav Loop LoopSpec LCSound LoopSound LoopKeys Shapes EnumVal GenUnits GenC09.
+From Verif Require Import Util Ints Strconv Floats Node GoSrc Value Outcome Nav Loop LoopSpec LCSound LoopSound LoopKeys Api ApiSeq LoopHist Shapes EnumVal GenUnits GenC09.
 Import ListNotations.
 
 (* The demand of the property text, for EVERY well-formed node (no bound on nesting), every
@@ -126,6 +126,28 @@ Proof.
   - destruct E as [->| ->]; eauto.
 Qed.
 Print Assumptions C09_key_on_demand.
+
+(* ---------- histories: many Loop calls, one caller-owned key buffer ---------- *)
+(* A caller makes many Loop calls - over several collections of an object, over other objects - and hands
+   the same key buffer to all of them.  [run] (Model/ApiSeq.v) threads a store of objects through the calls
+   of a history.  For EVERY call of EVERY history of Loop calls (no bound on its length, any mix of objects,
+   paths and iterator scripts): the store is as it was before the first call, the answer is the trace the call
+   produces on the untouched object, and that trace meets the demand of the property.  The key buffer is not
+   part of the state of the model (the emitted renderings copy the key text into the empty prefix of the
+   buffer); that the real code keeps no tie between the buffer and an object is what the history cases of
+   the stream observe (op lhist: one real buffer, every reported key looked up natively). *)
+Theorem C09_history : forall ord s h,
+  (forall l, Permutation (ord l) l) ->
+  Forall (loop_step_ok ord s) h ->
+  Forall2 (loop_step_meets ord s) h (run s h).
+Proof. exact loop_history. Qed.
+Print Assumptions C09_history.
+
+(* ... every call answers what it answers as the only call *)
+Theorem C09_history_alone : forall ord s h,
+  Forall (loop_step_ok ord s) h -> map fst (run s h) = map (alone s) h.
+Proof. exact loop_history_alone. Qed.
+Print Assumptions C09_history_alone.
 
 (* ---------- key texts parse back to the key ---------- *)
 Theorem C09_key_roundtrip_string : forall kn k,
@@ -243,4 +265,53 @@ Proof.
   apply keys_ok_plain; try reflexivity.
   - right. exists KInt32. split; reflexivity.
   - intros kv [<-|[<-|[]]]; discriminate.
+Qed.
+
+(* a history: a string-keyed map, a slice of the same object, an int-keyed map of another object, the
+   string-keyed map again (Break after its first round) - the hypotheses of C09_history hold, and the last
+   call still hands over the key "read" *)
+Definition demo_hn : node :=
+  Eval vm_compute in GenC09.root_node ("T", TStruct [("M", TMap Shapes.t_string Shapes.t_int32); ("L", TSlice Shapes.t_int32)]).
+Definition demo_hv : val :=
+  VStruct [VMap false [(VStr "read", VInt 35%Z); (VStr "rw", VInt 7%Z)]; VSlice false [VInt 4%Z; VInt 5%Z] 0].
+Definition demo_hn2 : node := Eval vm_compute in GenC09.root_node ("U", TMap Shapes.t_int32 Shapes.t_string).
+Definition demo_hv2 : val := VMap false [(VInt 2%Z, VStr "b")].
+Definition demo_store : store := [(demo_hn, APtr (Some demo_hv)); (demo_hn2, APtr (Some demo_hv2))].
+Definition demo_history : list step :=
+  [(0, KLoop (script_of "1" "") id_ord ["M"]); (0, KLoop (script_of "1" "C") id_ord ["L"]);
+   (1, KLoop (script_of "1" "") id_ord []); (0, KLoop (script_of "1" "B") id_ord ["M"])]%nat.
+
+Example C09_demo_history :
+  Forall (loop_step_ok id_ord demo_store) demo_history /\
+  nth_error (map fst (run demo_store demo_history)) 3 =
+    Some (Some (AnsTrace (Ret [ERequireKey true; ESetKey "read" "static"; ESetVal (VInt 35%Z) "static"; EIterate CBrk] None))).
+Proof.
+  split; [|vm_compute; reflexivity].
+  assert (KM : keys_ok (denoted demo_hn demo_hv ["M"])).
+  { change (denoted demo_hn demo_hv ["M"]) with (ltac:(let x := eval vm_compute in (denoted demo_hn demo_hv ["M"]) in exact x)).
+    apply keys_ok_plain; try reflexivity.
+    - left. split; reflexivity.
+    - intros kv [<-|[<-|[]]]; discriminate. }
+  assert (KU : keys_ok (denoted demo_hn2 demo_hv2 [])).
+  { change (denoted demo_hn2 demo_hv2 []) with (ltac:(let x := eval vm_compute in (denoted demo_hn2 demo_hv2 []) in exact x)).
+    apply keys_ok_plain; try reflexivity.
+    - right. exists KInt32. split; reflexivity.
+    - intros kv [<-|[]]; discriminate. }
+  assert (KL : keys_ok (denoted demo_hn demo_hv ["L"])).
+  { change (denoted demo_hn demo_hv ["L"]) with (ltac:(let x := eval vm_compute in (denoted demo_hn demo_hv ["L"]) in exact x)).
+    exact I. }
+  assert (OK0 : forall sc path, keys_ok (denoted demo_hn demo_hv path) ->
+                loop_step_ok id_ord demo_store (0%nat, KLoop sc id_ord path)).
+  { intros sc path K. apply (loop_step_ok_intro id_ord demo_store 0 sc path demo_hn demo_hv);
+      [reflexivity|vm_compute; reflexivity|reflexivity|vm_compute; reflexivity|exact K]. }
+  assert (OK1 : forall sc path, keys_ok (denoted demo_hn2 demo_hv2 path) ->
+                loop_step_ok id_ord demo_store (1%nat, KLoop sc id_ord path)).
+  { intros sc path K. apply (loop_step_ok_intro id_ord demo_store 1 sc path demo_hn2 demo_hv2);
+      [reflexivity|vm_compute; reflexivity|reflexivity|vm_compute; reflexivity|exact K]. }
+  unfold demo_history.
+  apply Forall_cons; [exact (OK0 _ _ KM)|].
+  apply Forall_cons; [exact (OK0 _ _ KL)|].
+  apply Forall_cons; [exact (OK1 _ _ KU)|].
+  apply Forall_cons; [exact (OK0 _ _ KM)|].
+  apply Forall_nil.
 Qed.
